@@ -209,3 +209,42 @@ func Harness_C06_q_every_length() {
 	verif.Assert(verif.Eq(got, payload), "roundtrip-identical")
 	verif.Reach("end")
 }
+
+// Several messages on ONE stream (a reader that holds more than the current message, as a
+// buffered network reader does): each Decrypt call returns one message and consumes exactly
+// that message's frames, so the following messages are intact. (Messages whose length is a
+// multiple of 1024 have no end marker and are not used here.)
+func Harness_C06_q_messages_on_one_stream() {
+	secret, _ := c06Secret()
+	acc, _ := NewSecureSessionFromSharedKey(secret)
+	ctl, _ := NewSecureClientSessionFromSharedKey(secret)
+	lens := []int{1, 3, 1025}
+	k := 2 + verif.Choice("messages", 2)
+	var stream []byte
+	var ps [][]byte
+	var sizes []int
+	for i := 0; i < k; i++ {
+		id := string(rune('0' + i))
+		p := verif.Bytes("p"+id, lens[verif.Choice("len"+id, len(lens))])
+		enc, err := ctl.Encrypt(bytes.NewBuffer(append([]byte{}, p...)))
+		verif.Assert(err == nil, "encrypt-ok")
+		w, _ := ioutil.ReadAll(enc)
+		stream = append(stream, w...)
+		ps = append(ps, p)
+		sizes = append(sizes, len(w))
+	}
+	buf := bytes.NewBuffer(stream)
+	left := len(stream)
+	for i := 0; i < k; i++ {
+		dec, err := acc.Decrypt(buf)
+		verif.Assert(err == nil, "decrypt-ok")
+		if err != nil {
+			return
+		}
+		got, _ := ioutil.ReadAll(dec)
+		verif.Assert(verif.Eq(got, ps[i]), "message-identical")
+		left -= sizes[i]
+		verif.Assert(buf.Len() == left, "consumes-exactly-one-message")
+	}
+	verif.Reach("end")
+}
